@@ -111,7 +111,11 @@ where
         .regs
         .set_sp(u16::from_le_bytes([header[23], header[24]]));
     // interrupt mode
-    emulator.cpu.set_im(header[25] & SNA_INTERRUPT_MODE_MASK);
+    let interrupt_mode = header[25] & SNA_INTERRUPT_MODE_MASK;
+    if interrupt_mode > 2 {
+        return Err(SnapshotLoadError::InvalidSNAFile.into());
+    }
+    emulator.cpu.set_im(interrupt_mode);
     // Border color
     emulator
         .controller
